@@ -337,9 +337,110 @@ def _track_reader(fn: ast.FunctionDef, where: str) -> dict:
 
 
 # ---------------------------------------------------------------------------------------------
+# state kept between calls: the model is state free, so the covered code must be, too (fail closed)
+# ---------------------------------------------------------------------------------------------
+COVERED = {
+    "droplets/emulsions.py": [
+        ["Emulsion", "data"], ["Emulsion", "_write_hdf_dataset"], ["Emulsion", "_from_hdf_dataset"], ["Emulsion", "to_file"],
+        ["Emulsion", "from_file"], ["Emulsion", "copy"], ["Emulsion", "append"], ["Emulsion", "extend"],
+        ["EmulsionTimeCourse", "to_file"], ["EmulsionTimeCourse", "from_file"], ["EmulsionTimeCourse", "append"]],
+    "droplets/droplet_tracks.py": [
+        ["DropletTrack", "data"], ["DropletTrack", "_write_hdf_dataset"], ["DropletTrack", "_from_hdf_dataset"],
+        ["DropletTrack", "to_file"], ["DropletTrack", "from_file"], ["DropletTrack", "append"],
+        ["DropletTrackList", "to_file"], ["DropletTrackList", "from_file"]],
+}
+OPEN_MODE = {"to_file": "w", "from_file": "r"}
+PLAIN_DECORATORS = ("property", "classmethod", "staticmethod", "overload")
+STATELESS_MODULE_NAMES = ("__all__", "_logger")
+
+
+def _module_state(tree: ast.Module) -> tuple[set, dict]:
+    """names assigned at module level (other than __all__ / the logger) and the module-level functions"""
+    names, funcs = set(), {}
+    for s in tree.body:
+        if isinstance(s, ast.FunctionDef):
+            funcs[s.name] = s
+        targets = s.targets if isinstance(s, ast.Assign) else [s.target] if isinstance(s, (ast.AnnAssign, ast.AugAssign)) else []
+        for t in targets:
+            for n in ast.walk(t):
+                if isinstance(n, ast.Name) and n.id not in STATELESS_MODULE_NAMES:
+                    names.add(n.id)
+    return names, funcs
+
+
+def _class_state(tree: ast.Module) -> dict:
+    """class name -> class-level attributes whose initial value is not a plain constant"""
+    out = {}
+    for c in tree.body:
+        if isinstance(c, ast.ClassDef):
+            attrs = set()
+            for s in c.body:
+                tgt = s.targets[0] if isinstance(s, ast.Assign) and len(s.targets) == 1 else \
+                    s.target if isinstance(s, ast.AnnAssign) and s.value is not None else None
+                if isinstance(tgt, ast.Name) and not isinstance(s.value, ast.Constant) and tgt.id != "__slots__":
+                    attrs.add(tgt.id)
+            out[c.name] = attrs
+    return out
+
+
+def _check_stateless(fn: ast.FunctionDef, where: str, mod_names: set, mod_funcs: dict, cls_state: dict, seen: set) -> None:
+    if fn.name in seen and where.endswith("()"):
+        return
+    for d in fn.decorator_list:
+        if not ast.unparse(d).split(".")[-1].split("(")[0] in PLAIN_DECORATORS and "setter" not in ast.unparse(d):
+            raise TranslateError(f"{where}: decorator @{ast.unparse(d)} (a cache would keep state between calls)")
+    cls_attrs = set().union(*cls_state.values()) if cls_state else set()
+    for n in ast.walk(fn):
+        if isinstance(n, (ast.Global, ast.Nonlocal)):
+            raise TranslateError(f"{where}: `{ast.unparse(n)}` (state kept between calls)")
+        if isinstance(n, ast.Delete):
+            raise TranslateError(f"{where}: `{ast.unparse(n)}` (deletes from an argument / an open file)")
+        if isinstance(n, ast.AugAssign) and not isinstance(n.target, ast.Name):
+            raise TranslateError(f"{where}: in-place operator on `{ast.unparse(n.target)}`")
+        if isinstance(n, ast.Name) and isinstance(n.ctx, ast.Load) and n.id in mod_names:
+            raise TranslateError(f"{where}: reads the module-level variable `{n.id}`")
+        if isinstance(n, ast.Attribute) and n.attr in cls_attrs and isinstance(n.value, ast.Name) \
+                and (n.value.id in ("self", "cls") or n.value.id in cls_state):
+            raise TranslateError(f"{where}: uses the class-level attribute `{ast.unparse(n)}` (shared between instances)")
+        if isinstance(n, ast.Call) and isinstance(n.func, ast.Name) and n.func.id in mod_funcs and n.func.id not in seen:
+            seen.add(n.func.id)       # helpers of the same module are part of the covered code
+            _check_stateless(mod_funcs[n.func.id], f"{n.func.id}()", mod_names, mod_funcs, cls_state, seen)
+
+
+def _open_calls(fn: ast.FunctionDef, mod_funcs: dict) -> list:
+    calls = [n for n in ast.walk(fn) if isinstance(n, ast.Call) and ast.unparse(n.func) in ("h5py.File", "File")]
+    for n in ast.walk(fn):
+        if isinstance(n, ast.Call) and isinstance(n.func, ast.Name) and n.func.id in mod_funcs:
+            calls += [m for m in ast.walk(mod_funcs[n.func.id]) if isinstance(m, ast.Call)
+                      and ast.unparse(m.func) in ("h5py.File", "File")]
+    return calls
+
+
+def state_guards() -> None:
+    """Raise TranslateError if the covered functions (or same-module helpers they call) keep state between calls,
+    operate in place on arguments, or open their file in another mode than truncate-and-write / read-only."""
+    for rel, paths in COVERED.items():
+        tree = parse_file(REPO / rel)
+        mod_names, mod_funcs = _module_state(tree)
+        cls_state = _class_state(tree)
+        for path in paths:
+            fn = find_function(tree, path, {})
+            where = ".".join(path)
+            _check_stateless(fn, where, mod_names, mod_funcs, cls_state, set())
+            if path[-1] in OPEN_MODE:
+                call = _one(_open_calls(fn, mod_funcs), f"h5py.File call in {where}")
+                mode = call.args[1] if len(call.args) >= 2 else next((k.value for k in call.keywords if k.arg == "mode"), None)
+                if _const_str(mode) != OPEN_MODE[path[-1]]:
+                    raise TranslateError(f"{where}: the file is opened with mode "
+                                         f"{ast.unparse(mode) if mode is not None else '<default>'}, expected "
+                                         f"{OPEN_MODE[path[-1]]!r} (the model's file is exactly what the last call wrote)")
+
+
+# ---------------------------------------------------------------------------------------------
 # generator
 # ---------------------------------------------------------------------------------------------
 def facts() -> dict:
+    state_guards()
     em = parse_file(REPO / "droplets/emulsions.py")
     tr = parse_file(REPO / "droplets/droplet_tracks.py")
     f: dict = {}
